@@ -92,6 +92,17 @@ def normalize_assoc(vm, t):
 
 def assoc_type(vm, selfty, tr, name):
     head = type_head(selfty)[0]
+    if selfty.startswith('dyn '):
+        # `trait Pass: VisitProgram<Output = X, Error = Y>`: bindings in the supertrait list of the object's trait
+        t = selfty[4:].split('+')[0].strip()
+        info = vm.mir.src.traits.get(t)
+        if info:
+            lines = vm.mir.src.files[info['file']]
+            hdr = ' '.join(' '.join(lines[info['line'] - 1:info['line'] + 4]).split())
+            m = re.search(r'\b' + re.escape(name) + r'\s*=\s*([^,>{]+(?:<[^<>]*>)?)', hdr.split('{')[0])
+            if m:
+                v = canon(m.group(1).strip())
+                return vm.mir.src.aliases.get(v, v)
     for im in vm.mir.src.impls.values():
         if im.trait != tr or name not in im.assoc: continue
         out = {}
@@ -127,6 +138,11 @@ def parse_callee(c):
     if not segs: raise Unmodelled('cannot parse callee: ' + repr(c))
     ci.method = segs[-1]
     pre = segs[:-1]
+    if pre and pre[-1].startswith('<impl ') and pre[-1][6:7].isupper():      # inherent impl named through its type: <impl Type<..>>::method
+        ty = pre[-1][6:-1]
+        ci.selfty = ty; ci.tyargs = type_head(ty)[1]
+        ci.shape = re.sub(r'^(?:[a-z_][a-z0-9_]*::)+(?=[A-Z<])', '', strip_generics(c))
+        return ci
     if pre and pre[-1].startswith('<') and not pre[-1].startswith('<impl '):
         ci.tyargs = split_top(pre[-1][1:-1]); pre = pre[:-1]
     if pre:
@@ -199,12 +215,12 @@ def resolve(vm, callee, subst):
                     out = {}
                     if unify(im.self_ty, selfty, set(im.generics), out) and _targs_ok(im, ci.targs, out):
                         return ('mir', f, bind_fn_generics(vm, f, out, ci.fnargs))
+        if ci.trait in mir.src.traits and (selfty.startswith(('dyn ', 'impl ')) or re.fullmatch(r'[A-Z]\w*', selfty) and selfty not in mir.src.structs and selfty not in mir.src.enums):
+            return ('dyn', ci)      # trait object / `impl Trait` argument / unbound generic: dispatch on the receiver's runtime type
         # trait default method defined in the crate
         for f in mir.by_name.get(ci.method, []):
             if f.name == f'{ci.trait}::{ci.method}' or f.name.endswith(f'::{ci.trait}::{ci.method}'):
                 return ('mir', f, bind_fn_generics(vm, f, {'Self': selfty}, ci.fnargs))
-        if ci.trait in mir.src.traits and (selfty.startswith(('dyn ', 'impl ')) or re.fullmatch(r'[A-Z]\w*', selfty) and selfty not in mir.src.structs and selfty not in mir.src.enums):
-            return ('dyn', ci)      # trait object / `impl Trait` argument / unbound generic: dispatch on the receiver's runtime type
         m = vm.models.lookup_trait(ci)
         if m is not None: return ('model', m[0], ci, m[1])
         raise Unmodelled(f'unmodelled callee: {c}   [shape {ci.shape}]')
